@@ -118,3 +118,7 @@ Proof.
       + apply wp_ret. exact Hc. }
   intros s HI. apply (K l []); [reflexivity|exact HI].
 Qed.
+
+Lemma wp_seq {A B} (m : M A) (f : A -> M B) (Q' : A -> pset -> Prop) (Q : B -> pset -> Prop) s :
+  wp m Q' s -> (forall a s', Q' a s' -> wp (f a) Q s') -> wp (bind m f) Q s.
+Proof. intros Hm Hf. apply wp_bind. eapply wp_conseq; [exact Hm|exact Hf]. Qed.
